@@ -147,7 +147,7 @@ def check_C11(tier, seed):
 def arg_values():
     big = G.U((1 << 64) - 1)
     return [G.NULL, G.I(0), G.I(-1), big, G.F2(3), G.S("a"), G.S(""), G.B(True), G.L([]), G.L([G.I(1), G.I(2)]), G.L([G.I(1), G.NULL]), G.L([G.NULL]), G.L([G.S("a")]),
-            G.L([G.L([G.I(1)])]), G.L([G.I(1), G.S("a")]), G.L([G.F2(1)]), G.L([G.B(False)])]
+            G.L([G.L([G.I(1)])]), G.L([G.I(1), G.S("a")]), G.L([G.F2(1)]), G.L([G.B(False)]), G.E("FOO"), G.L([G.E("A")])]
 
 def check_C12(tier, seed):
     import random
@@ -204,8 +204,8 @@ def check_C12(tier, seed):
             if len(res.cov["samples"]) < 3 and c["outcome"]["badtype"]: res.sample({"vars": [(v[0], v[1]["text"]) for v in c["vars"]], "given": [(a, G.pretty(b)) for a, b in c["given"]], "engine": c["outcome"]})
     res.cov["evaluations"] = len(cases)
     res.cov["distinct_nontrivial"] = rej
-    res.cov["rule"] = ("for every compiled query with variables in the universe: the valid argument map, the empty map, each variable dropped, an extra name, each variable replaced by each value of a 17-value universe (null, ints of both signs and beyond i64, float, strings, bool, "
-                       "empty / int / null-containing / string / nested / mixed / float / bool lists), and two bad values at once; the real InterpretedQuery::from_query_and_arguments outcome (accept, or the named missing / unused / ill-typed variables) "
+    res.cov["rule"] = ("for every compiled query with variables in the universe: the valid argument map, the empty map, each variable dropped, an extra name, each variable replaced by each value of a 19-value universe (null, ints of both signs and beyond i64, float, strings, bool, "
+                       "empty / int / null-containing / string / nested / mixed / float / bool lists, an enum value and a list of enums), and two bad values at once; the real InterpretedQuery::from_query_and_arguments outcome (accept, or the named missing / unused / ill-typed variables) "
                        "is judged by TLC against ArgCheck.tla (Types!Fits on the query's inferred variable types). distinct non-trivial = rejected maps")
     res.notes.update({"accepted": acc, "rejected": rej, "rejection_kinds(missing,unused,badtype)": sorted(map(list, kinds))})
     return res
